@@ -114,7 +114,7 @@ class Opcode(OpcodeProtocol):
         elif size == "w":
             return struct.pack("<H", value & 0xFFFF)
         elif size == "l":
-            return struct.pack("<HB", value & 0xFFFF, value >> 16)
+            return struct.pack("<HB", value & 0xFFFF, (value >> 16) & 0xFF)
         return b""
 
     def supposed_length(self, value_node: "ValueNodeProtocol | None", size: ValueSize | None = None) -> int:
